@@ -113,8 +113,11 @@ def pipeline(ctx, P, f, vec):
         if miss:
             missing_at.setdefault(st.get("l"), set()).update(miss)
     n_ret = 0
+    subst0 = {k: v for k, v in naming(f, P).items() if k != "@idx"}
     for state, st in mf.exits:
         v = _strip(st.get("v")) if st.get("k") == "ret" else None
+        if is_expr(v):
+            v = _strip(F.expand(v, subst0))       # a returned single-definition local stands for its initialiser
         if v is None or match(["global", "std::nullopt"], v) or match(["init", ANY], v) and len(v) == 2:
             continue
         n_ret += 1
